@@ -381,7 +381,7 @@ fn corpus_batch(files: &[PathBuf]) -> (Vec<Violation>, u64) {
             cwd: &sb.root,
             schedule_env: None,
             trace_file: None,
-            strace: None,
+            strace: None, hash_seed: None
         });
         runs += 1;
         if !matches!(r.code, Some(0) | Some(1)) {
@@ -589,7 +589,7 @@ pub fn run(tier: Tier) -> CheckResult {
                     cwd: &sb.root,
                     schedule_env: None,
                     trace_file: None,
-                    strace: None,
+                    strace: None, hash_seed: None
                 });
                 subprocess_runs += 1;
                 if r.code != Some(101) && r.signal.is_none() {
